@@ -58,11 +58,18 @@ Print Assumptions C27_delete_columns_descriptors.
    cells' dimension, not the descriptors) ... *)
 Theorem C27_insert_columns_descriptors_partial :
   forall (column count : Z) (cs cs' : Sheet.Cols.cols),
-  Sheet.Cols.wf cs -> 1 <= column ->
+  Sheet.Cols.wf cs ->
   (forall c, In c cs -> column <= Sheet.Cols.c_max c -> Sheet.Cols.c_max c + count <= LAST_COLUMN) ->
   insert_columns_descrs column count cs = Ok cs' -> Sheet.Cols.wf cs'.
 Proof. exact insert_columns_descrs_partial. Qed.
 Print Assumptions C27_insert_columns_descriptors_partial.
+
+(* an index outside the grid or a count <= 0 is refused: the descriptors stay as they are *)
+Theorem C27_insert_columns_refused :
+  forall (column count : Z) (cs : Sheet.Cols.cols),
+  column < 1 \/ LAST_COLUMN < column \/ count <= 0 -> insert_columns_descrs column count cs = Err.
+Proof. exact insert_columns_descrs_refused. Qed.
+Print Assumptions C27_insert_columns_refused.
 
 (* ... otherwise not: finding F47 *)
 Theorem C27_insert_columns_descriptors_refuted :
